@@ -42,7 +42,7 @@ func (e *Engine) genVC(fn *ssa.Function, con *Contract, prop string) (res *FuncR
 		vals: map[ssa.Value]SVal{}, R: map[*ssa.BasicBlock]string{}, memOut: map[*ssa.BasicBlock]*Mem{},
 		keySort: map[string]Sort{}, keyType: map[string]types.Type{}, declared: map[string]bool{}, ord: map[string]int{},
 		params: map[string]SVal{}, mem0: &Mem{m: map[string]string{}}, debug: map[string][]debugBinding{},
-		lets: map[string]SVal{}, usedCon: map[string]bool{}, uncontracted: map[string]bool{},
+		lets: map[string]SVal{}, usedCon: map[string]bool{}, uncontracted: map[string]bool{}, assertDone: map[string]bool{},
 	}
 	defer func() {
 		if r := recover(); r != nil {
